@@ -137,7 +137,7 @@ FIELD_SHAPES = dict(phi=(), Vu=(3,), Wd=(3,), Tuu=(3, 3), Tdd=(3, 3),
 @st.composite
 def helper_case(draw):
     c = draw(cases.spacetime_case(
-        kinds=("Wp", "Wp", "Wp", "Wn", "KS", "PP"), orders_p=(2, 4, 4, 6, 8),
+        kinds=("Wp", "Wp", "Wp", "Wn", "KS", "PP", "Wt0"), orders_p=(2, 4, 4, 6, 8),
         orders_n=(2, 4)))
     c["form"] = draw(st.sampled_from(["components", "tensors"]))
     c["matter"] = "none"
@@ -402,6 +402,10 @@ def generic_helpers():
     c = dict(cases.generic_KS(4), form="components", matter="none",
              weight=1.0)
     c["fields"] = _generic_fields(None)
+    out.append(c)
+    c = dict(cases.generic_Wt0(4), form="components", matter="none",
+             weight=0.5)
+    c["fields"] = _generic_fields(c["L"])
     out.append(c)
     return out
 
